@@ -37,6 +37,7 @@ class C09(Prop):
     pid = "C09"
     pkg = "hdog"
     binname = "c09"
+    exec_mod = "XExec"
     quick_cases = 2400
     thorough_cases = 8000
     shard = 150
@@ -157,9 +158,59 @@ class C09(Prop):
             ops.append(["D", None])
         return dict(max=mx, lp=lp, prefix=pfx, glabels=gl, ops=ops)
 
+    ADDRS = ["127.0.0.1:8125", "udp://127.0.0.1:8127", "unix:///tmp/d.sock", "unixgram:///tmp/d.sock", "spongebob://1.2.3.4:5",
+             "unix://", "unixgram://", "udp://", "://", "unix:/x", "UNIX:///x", "unix:///a://b", "udp://[::1]:80", "nothing", "",
+             "1.2.3.4:99999", "udp://unix://x", "x://unix://y", "unixgram", "unix:///tmp/\u00e9", "a:://b", "::///", "unix//:x",
+             "unixgram:///", "udp://1.2.3.4", "[::1]:8125", "unix:://x", ":/unix://x", "udp:///tmp/x", "unixgra://x", "unixgramm://x"]
+    MAXES = [0, 1, 1432, 8192, 65527, 65528, 70000, TWO32 - 1, TWO32, TWO32 + 1, (1 << 64) - 1]
+    FNAMES = ["datadog.dogstatsd.client", "datadog.dogstatsd.client.x", "datadog.dogstatsd.clien", "datadog.dogstatsd.clientele",
+              "xdatadog.dogstatsd.client", "Datadog.dogstatsd.client.y", "datadog.dogstatsd.client.packets_sent", "a", "", "req.count"]
+
+    def gen_builder(self, rng):
+        ops = []
+        for _ in range(rng.range(0, 4)):
+            if rng.chance(3, 5):
+                a = rng.pick(self.ADDRS)
+                if rng.chance(1, 6):
+                    i = rng.below(len(a) + 1)
+                    a = a[:i] + rng.pick(["://", ":", "/", "unix", "x"]) + a[i:]
+                ops.append(["a", a])
+            else:
+                ops.append(["m", rng.pick(self.MAXES) if rng.chance(3, 4) else rng.below(1 << rng.range(1, 64))])
+        return dict(kind="B", ops=ops)
+
+    def gen_flush(self, rng):
+        adversarial = rng.chance(1, 8)
+        mx = rng.weighted([(6, rng.range(20, 90)), (2, 1432), (2, 8192), (1, rng.range(0, 20))])
+        pfx = rng.weighted([(2, None), (3, self._str(rng, 1, 6, adversarial)), (1, "datadog.dogstatsd.client")])
+        ms = []
+        for k in rng.shuffle("cgh"):
+            if not rng.chance(3, 4):
+                continue
+            name = rng.pick(self.FNAMES) if rng.chance(4, 5) else self._str(rng, 0, 30, adversarial)
+            labels = self._labels(rng, 3, adversarial)
+            if k == "c":
+                ms.append(["c", name, labels, [rng.pick(U64S) if rng.chance(1, 3) else rng.below(1000) for _ in range(rng.range(0, 3))]])
+            elif k == "g":
+                ms.append(["g", name, labels, self._float_bits(rng)])
+            else:
+                ms.append(["h", name, labels, self._float_bits(rng), rng.weighted([(1, 0), (3, rng.range(1, 4)), (2, rng.range(5, 40))])])
+        return dict(kind="F", aggressive=rng.below(2), dist=rng.below(2), max=mx, lp=rng.below(2), prefix=pfx,
+                    glabels=self._labels(rng, 3, adversarial) if rng.chance(1, 2) else [], now=rng.pick([0, 1700000000, (1 << 64) - 1, rng.below(1 << 40)]),
+                    ms=ms)
+
     def gen(self, rng, n):
         big = n > 5000
-        return [self.gen_one(rng, big) for _ in range(n)]
+        out = []
+        for _ in range(n):
+            r = rng.below(10)
+            if r == 0:
+                out.append(self.gen_builder(rng))
+            elif r == 1:
+                out.append(self.gen_flush(rng))
+            else:
+                out.append(self.gen_one(rng, big))
+        return out
 
     # ------------------------------------------------------------------ driver protocol
     @staticmethod
@@ -167,6 +218,20 @@ class C09(Prop):
         return "-" if not ls else ";".join("%s=%s" % (hexs(k), hexs(v)) for k, v in ls)
 
     def impl_line(self, c):
+        if c.get("kind") == "B":
+            return "B " + " ".join("a:%s" % hexs(o[1]) if o[0] == "a" else "m:%d" % o[1] for o in c["ops"])
+        if c.get("kind") == "F":
+            toks = []
+            for m in c["ms"]:
+                if m[0] == "c":
+                    toks.append("c:%s:%s:%s" % (hexs(m[1]), self._lab(m[2]), ",".join(str(v) for v in m[3]) or "-"))
+                elif m[0] == "g":
+                    toks.append("g:%s:%s:%x" % (hexs(m[1]), self._lab(m[2]), m[3]))
+                else:
+                    toks.append("h:%s:%s:%x:%d" % (hexs(m[1]), self._lab(m[2]), m[3], m[4]))
+            return "F %d %d %d %d %s %s %d | %s" % (c["aggressive"], c["dist"], c["max"], c["lp"],
+                                                    "-" if c["prefix"] is None else "+" + hexs(c["prefix"]), self._lab(c["glabels"]),
+                                                    c["now"], " ".join(toks))
         toks = []
         for o in c["ops"]:
             if o[0] == "D":
@@ -198,6 +263,39 @@ class C09(Prop):
         """output tokens; also attaches the formatted number strings the driver echoed to the case (c['fmt'])"""
         toks = line.split()
         out, fmt = [], []
+        if c.get("kind") == "B":
+            for t in toks:
+                f = t.split(":")
+                if f[0] == "A":
+                    out.append(["A", f[1]])
+                    fmt.append([f[2] == "1", f[3] == "1"])
+                elif f[0] == "M":
+                    out.append(["M", f[1]])
+                    fmt.append(None)
+                elif f[1] == "ec":
+                    out.append(["C", "ec"])
+                else:
+                    out.append(["C", f[1], int(f[2]), int(f[3]), f[4]])
+            c["fmt"] = fmt + [None] * (len(c["ops"]) - len(fmt))
+            return out
+        if c.get("kind") == "F":
+            vals = [t[2:] for t in toks if t.startswith("V:")]
+            now = [t[2:] for t in toks if t.startswith("T:")][0]
+            if bytes.fromhex(now).decode() != str(c["now"]):
+                raise MachineryBroken("itoa rendering differs for %d" % c["now"])
+            if len(vals) == len(c["ms"]):
+                for m, v in zip(c["ms"], vals):
+                    if m[0] == "c":
+                        if bytes.fromhex(v).decode() != str(sum(m[3]) % (1 << 64)):
+                            raise MachineryBroken("counter value string %r for increments %r" % (v, m[3]))
+                    else:
+                        self._check_float(m[3], v)
+            vals += [""] * (len(c["ms"]) - len(vals))
+            c["fmt"] = dict(vals=vals, now=now)
+            if toks[0] == "P":
+                return ["P"]
+            ps = toks[0][2:]
+            return ["F", [] if ps == "-" else ps.split(",")]
         if toks == ["N"]:
             c["fmt"] = [None] * len(c["ops"])
             return [["N"]]
@@ -252,6 +350,30 @@ class C09(Prop):
         return cq_list(["(%s, %s)" % (self._hx(hexs(k)), self._hx(hexs(v))) for k, v in ls])
 
     def coq_case(self, c):
+        if c.get("kind") == "B":
+            fmt = c.get("fmt") or [None] * len(c["ops"])
+            ops = []
+            for o, fm in zip(c["ops"], fmt):
+                if o[0] == "a":
+                    rp, rw = fm or (False, False)
+                    ops.append("BAddr %s %s %s" % (self._hx(hexs(o[1])), cq_bool(rp), cq_bool(rw)))
+                else:
+                    ops.append("BMax %s" % cq_N(o[1]))
+            return "(XB %s)" % cq_list(ops)
+        if c.get("kind") == "F":
+            fm = c.get("fmt") or dict(vals=[""] * len(c["ms"]), now="")
+            ms = []
+            for m, v in zip(c["ms"], fm["vals"]):
+                if m[0] == "c":
+                    ms.append("MCounter %s %s %s" % (self._hx(hexs(m[1])), self._cq_labels(m[2]), self._hx(v)))
+                elif m[0] == "g":
+                    ms.append("MGauge %s %s %s" % (self._hx(hexs(m[1])), self._cq_labels(m[2]), self._hx(v)))
+                else:
+                    ms.append("MHist %s %s %s %s" % (self._hx(hexs(m[1])), self._cq_labels(m[2]), self._hx(v), cq_N(m[4])))
+            return ("(XF {| f_aggressive := %s; f_dist := %s; f_max := %s; f_lp := %s; f_prefix := %s; f_glabels := %s; f_now := %s |} %s)"
+                    % (cq_bool(c["aggressive"]), cq_bool(c["dist"]), cq_N(c["max"]), cq_bool(c["lp"]),
+                       cq_opt(None if c["prefix"] is None else self._hx(hexs(c["prefix"]))), self._cq_labels(c["glabels"]),
+                       self._hx(fm["now"]), cq_list(ms)))
         fmt = c.get("fmt") or [None] * len(c["ops"])
         ops = []
         for o, fm in zip(c["ops"], fmt):
@@ -267,11 +389,25 @@ class C09(Prop):
                 ops.append("WHist %s %s %s %s %s" % ("Hist" if o[0] == "h" else "Dist", self._hx(hexs(o[1])), self._cq_labels(o[2]),
                                                     cq_list([self._hx(v) for v in fm["vs"]]),
                                                     cq_opt(None if o[3] is None else self._hx(fm["aux"]))))
-        return "{| k_max := %s; k_lp := %s; k_prefix := %s; k_glabels := %s; k_ops := %s |}" % (
+        return "(mkw %s %s %s %s %s)" % (
             cq_N(c["max"]), cq_bool(c["lp"]), cq_opt(None if c["prefix"] is None else self._hx(hexs(c["prefix"]))),
             self._cq_labels(c["glabels"]), cq_list(ops))
 
     def coq_out(self, c, out):
+        if c.get("kind") == "B":
+            xs = []
+            names = {"ok": "BOk", "es": "BErrScheme", "er": "BErrResolve", "ec": "BErrConfig"}
+            for t in out:
+                if t[0] in "AM" or (t[0] == "C" and t[1] == "ec"):
+                    xs.append(names[t[1]])
+                else:
+                    disp = "None" if t[1] == "udp" else "(Some %s)" % self._hx(t[4])
+                    xs.append("BConfig %s %s %s %s" % (self._hx(hexs(t[1])), cq_N(t[2]), cq_bool(t[3]), disp))
+            return "(OB %s)" % cq_list(xs)
+        if c.get("kind") == "F":
+            if out == ["P"]:
+                return "(OF None)"
+            return "(OF (Some %s))" % cq_list([self._hx(p) for p in out[1]])
         xs = []
         for t in out:
             if t[0] == "W":
@@ -280,9 +416,13 @@ class C09(Prop):
                 xs.append("OPayloads %s %s" % (cq_N(t[1]), cq_list([self._hx(p) for p in t[2]])))
             else:   # P, N
                 xs.append("OPanic")
-        return cq_list(xs)
+        return "(OW %s)" % cq_list(xs)
 
     def signature(self, c, out):
+        if c.get("kind") == "B":
+            return None if not c["ops"] else [c["ops"], out]
+        if c.get("kind") == "F":
+            return None if out == ["P"] or not out[1] else [{k: v for k, v in c.items() if k != "fmt"}, out]
         if not any(t[0] == "D" and t[2] for t in out) and not any(t[0] == "W" and t[2] for t in out):
             return None
         cc = {k: v for k, v in c.items() if k != "fmt"}
@@ -291,6 +431,21 @@ class C09(Prop):
     # ------------------------------------------------------------------ shrinking
     def shrink(self, c):
         c = {k: v for k, v in c.items() if k != "fmt"}
+        if c.get("kind") == "B":
+            ops = c["ops"]
+            return [dict(kind="B", ops=ops[:i] + ops[i + 1:]) for i in range(len(ops))]
+        if c.get("kind") == "F":
+            cands = [dict(copy.deepcopy(c), ms=c["ms"][:i] + c["ms"][i + 1:]) for i in range(len(c["ms"]))]
+            if c["glabels"]:
+                cands.append(dict(copy.deepcopy(c), glabels=[]))
+            if c["prefix"] and len(c["prefix"]) > 1:
+                cands.append(dict(copy.deepcopy(c), prefix=c["prefix"][:1]))
+            for i, m in enumerate(c["ms"]):
+                if m[2]:
+                    cands.append(dict(copy.deepcopy(c), ms=c["ms"][:i] + [m[:2] + [[]] + m[3:]] + c["ms"][i + 1:]))
+                if m[0] == "h" and m[4] > 1:
+                    cands.append(dict(copy.deepcopy(c), ms=c["ms"][:i] + [m[:4] + [1]] + c["ms"][i + 1:]))
+            return cands
         ops = c["ops"]
         cands = []
 
